@@ -26,7 +26,8 @@ META = {
     "equal the input once and in order under every order/repetition of look-ahead queries.  Templates: every ordered "
     "pair (thorough: triple) of queries per iteration in {% for %} bodies over the same iterable forms, with and "
     "without loop filter and else, recursive loops over all forests of <= 5 nodes and depth <= 3, in sync and "
-    "enable_async environments.",
+    "enable_async environments; loops with else left through {% break %}/{% continue %} (loopcontrols extension, "
+    "unconditional and conditional on the item): else iff no item passed the filter, break ends the visit sequence.",
     "note": "Queries are enabled only between the first successful advance and exhaustion (the loop body); items are "
     "distinct ints, changed() is fed item//2 so that equal consecutive keys occur; async code is driven to completion "
     "by hand (nothing suspends), a subset additionally through Template.render/asyncio.run.",
@@ -554,6 +555,94 @@ def rec_shard(arg) -> core.Part:
     return p
 
 
+# loops left early (jinja2.ext.loopcontrols) -----------------------------------
+
+CTLS = ("break", "continue", "break-else-continue", "cond-break", "cond-continue")
+
+
+def ctl_source(ctl, query, filt):
+    body = {
+        "break": "{% break %}",
+        "continue": "{% continue %}",
+        "break-else-continue": "{% if x in stop %}{% break %}{% else %}{% continue %}{% endif %}",
+        "cond-break": "{% if x in stop %}{% break %}{% endif %}T",
+        "cond-continue": "{% if x in stop %}{% continue %}{% endif %}T",
+    }[ctl]
+    return ("{% for x in seq" + (" if x in keep" if filt else "") + " %}[{{ x }}"
+            + ("|{{ " + Q_SRC[query] + " }}" if query else "") + "]" + body + "{% else %}ELSE{% endfor %}")
+
+
+def ref_ctl(items, keep, stop, ctl, query):
+    """else iff no item passed the filter, however the iterations ended; break ends the visit sequence."""
+    vis = [x for x in items if keep is None or x in keep]
+    rl = RefLoop(vis)
+    out = []
+    for pos, x in enumerate(vis):
+        rl.pos = pos
+        out.append("[%s" % x + ("|" + fmt(rl.query(query, x // 2)) if query else "") + "]")
+        hit = x in stop
+        if ctl == "break" or (hit and ctl in ("break-else-continue", "cond-break")):
+            break
+        if ctl in ("continue", "break-else-continue") or (hit and ctl == "cond-continue"):
+            continue
+        out.append("T")
+    if not vis:
+        out.append("ELSE")
+    return "".join(out)
+
+
+def ctl_shard(arg) -> core.Part:
+    is_async, combos, nmax = arg
+    import jinja2
+
+    p = core.Part()
+    forms = ASYNC_FORMS if is_async else SYNC_FORMS
+    tag = "async" if is_async else "sync"
+    outs = set()
+    k = 0
+    for ctl, query in combos:
+        for filt in (False, True):
+            env = jinja2.Environment(enable_async=is_async, extensions=["jinja2.ext.loopcontrols"])
+            src = ctl_source(ctl, query, filt)
+            tmpl = env.from_string(src)
+            for n in range(nmax + 1):
+                items = items_of(n)
+                stops = [frozenset()] + [frozenset([x]) for x in items]
+                if ctl in ("break", "continue"):
+                    stops = stops[:1]
+                for keep in masks(n):
+                    if (keep is None) == filt:
+                        continue
+                    for stop in stops:
+                        want = ref_ctl(items, keep, stop, ctl, query)
+                        for form in forms:
+                            k += 1
+                            via = is_async and k % 16 == 0
+                            try:
+                                got = render(tmpl, is_async, via, seq=make_iterable(form, items), keep=keep, stop=stop)
+                            except Exception as e:  # noqa: BLE001
+                                got = ("exc", type(e).__name__, str(e)[:80])
+                            p.evals += 1
+                            if got != want:
+                                kind = "else-after-visit" if isinstance(got, str) and got.endswith("ELSE") and not want.endswith("ELSE") else "output"
+                                p.violation(f"C07/ctl/{tag}/{ctl}/{kind}/{'filter' if filt else 'nofilter'}", {
+                                    "msg": f"{tag} {src!r} over {form} {items} keep={sorted(keep) if keep is not None else None} "
+                                           f"stop={sorted(stop)}: got {got!r}, expected {want!r}",
+                                    "script": ("import jinja2, asyncio\n" + _flat_setup(form, n, keep) +
+                                               f"vars['stop'] = {set(stop)!r}\n"
+                                               f"env = jinja2.Environment(enable_async={is_async!r}, extensions=['jinja2.ext.loopcontrols'])\n"
+                                               f"print(repr(env.from_string({src!r}).render(**vars)))\n")})
+                        outs.add((ctl, want))
+    if combos:
+        ctl, query = combos[0]
+        p.sample({"kind": "loop left early", "env": tag, "source": ctl_source(ctl, query, True),
+                  "expected over [10,11,12] keep {11,12} stop {11}": ref_ctl(items_of(3), {11, 12}, {11}, ctl, query)}, cap=1)
+    for o in outs:
+        p.sig(("ctl",) + o)
+    p.count("loopcontrol_renders", p.evals)
+    return p
+
+
 def chunks(xs, n):
     k = max(1, (len(xs) + n - 1) // n)
     return [xs[i:i + k] for i in range(0, len(xs), k)]
@@ -585,6 +674,8 @@ def run(ctx: core.Ctx):
     ctx.pmap(tmpl_shard, tshards)
     qr = [(q,) for q in QUERIES] + list(itertools.product(QUERIES, repeat=2))
     ctx.pmap(rec_shard, [(a, c, 4 if ctx.quick else 5) for a in (False, True) for c in chunks(qr, 24 if ctx.quick else 48)])
+    combos = [(c, q) for c in CTLS for q in (None,) + QUERIES]
+    ctx.pmap(ctl_shard, [(a, c, nmax) for a in (False, True) for c in chunks(combos, 16)])
     tr = ctx.counters.get("transitions", 0)
     ctx.cov["states"] = ctx.counters.get("states", 0)
     ctx.cov["transitions"] = tr
